@@ -11,6 +11,7 @@ mod aset;
 mod engine;
 mod hset;
 mod nums;
+mod strs;
 mod tree;
 mod util;
 
@@ -115,6 +116,13 @@ fn aset_cmd<A: aset::AApi>(a: &Args) -> i32 {
     run(&sut, &|l| sut.parse(l), a)
 }
 
+fn alphabet(a: &Args) -> Vec<char> {
+    match a.get("alphabet") {
+        Some(x) => x.split(',').filter(|t| !t.is_empty()).map(|t| char::from_u32(u32::from_str_radix(t, 16).expect("alphabet")).expect("alphabet")).collect(),
+        None => strs::ALPHABET.to_vec(),
+    }
+}
+
 fn main() {
     util::install_panic_hook();
     let argv: Vec<String> = std::env::args().collect();
@@ -169,6 +177,26 @@ fn main() {
             "A64u64" => aset_cmd::<aset::A64u64>(&a),
             t => panic!("unknown aset type {t}"),
         },
+        "pstr" => {
+            let sut = strs::PStrSut {
+                w: a.num("w", 1),
+                size: a.num("size", 4),
+                strs: strs::strings(a.num("chars", 2), &alphabet(&a)),
+                byte_inits: a.num("bytes", 1) == 1,
+            };
+            run(&sut, &|l| sut.parse(l), &a)
+        }
+        "podstr" => {
+            let sut = strs::PodStrSut { n: a.num("n", 4), strs: strs::strings(a.num("chars", 2), &alphabet(&a)), byte_inits: a.num("bytes", 1) == 1 };
+            run(&sut, &|l| sut.parse(l), &a)
+        }
+        "pod" => {
+            let kind = a.num("kind", 0);
+            let n = if kind == 0 { 1 } else { kind };
+            let lens: Vec<usize> = if a.get("lens").is_some() { a.list("lens").iter().map(|x| *x as usize).collect() } else { vec![n.saturating_sub(1), n, n + 1, n + 7] };
+            let sut = strs::PodSut { kind, lens };
+            run(&sut, &|l| sut.parse(l), &a)
+        }
         c => {
             eprintln!("unknown collection {c}");
             2
